@@ -849,6 +849,21 @@ func (s *ShapeIndex) applyUpdatesInternal() {
 	// configurable memory footprint overhead.
 	t := newTracker()
 
+	// Incremental updates (merging new edges into existing index cells, and
+	// removing shapes) are not implemented yet: updateEdges would re-enter
+	// maybeApplyUpdates through Iterator while the lock is held, and the
+	// tracker and removal support it needs are stubs. Until they exist, an
+	// update of an index that has already been built discards the existing
+	// cells and indexes all current shapes again. (Nothing is done when no
+	// update is actually pending, e.g. when a second goroutine gets here after
+	// the first one has already applied the updates.)
+	if !s.isFirstUpdate() && (s.pendingAdditionsPos < int32(len(s.shapes)) || len(s.pendingRemovals) > 0) {
+		s.cellMap = make(map[CellID]*ShapeIndexCell)
+		s.cells = nil
+		s.pendingAdditionsPos = 0
+		s.pendingRemovals = s.pendingRemovals[:0]
+	}
+
 	// allEdges maps a Face to a collection of faceEdges.
 	allEdges := make([][]faceEdge, 6)
 
